@@ -23,7 +23,7 @@ CFG = dict(
          "profiles; every operation is judged on the dump taken immediately before it); END TO END through driver.PProf (incl. weights beyond 2^53 / at the int64 extremes, heap-like / duplicate / empty value types, "
          "no-mapping sources; inputs serialised / copied / compacted before the merge; one-shot -proto/-raw command lines with option combinations, failing sources, "
          "bases, 130+ sources; interactive sessions; web requests incl. /download; outputs parsed back and compared with the glue model "
-         "M_MergeGlue); systematic single-attribute pairs (incl. addresses below the mapping start / at its edges; 71 "
+         "M_MergeGlue); systematic single-attribute pairs (incl. empty value vs value equal to another field of the entity; incl. addresses below the mapping start / at its edges; 71 "
          "attributes of mapping/function/line/location/label/num-label/stack x same-profile, two-profile, crossed, cancelling); header "
          "rule tables (times with zeros/negatives, periods, wrapping durations, comments), incompatible/empty/nil-period-type lists, "
          "GenProfile lists incl. a profile with itself or its negation, regression witnesses F1/F2/F24, finding F25; 100+ sampleKey byte "
